@@ -19,6 +19,8 @@ var shapes = []shapeSpec{
 	{"s5", "mw", "/s5", "closure + class middleware around the handler"},
 	{"s6", "err", "/s6", "handler throws for odd n, onError answers"},
 	{"s7", "cap", "/s7", "handler, closure middleware and start-up helper closure write to arrays/scalars captured by value (use)"},
+	{"s8", "obj", "/s8", "one object per request; its methods run capture-less closures / arrow fns / callbacks (array_map, usort, array_filter, array_reduce) that use $this"},
+	{"s9", "boot", "/s9", "by-value copies of boot-time arrays (service object properties, static properties, globals captured by value) that were iterated by reference at boot; writes to the copies"},
 }
 
 // round is one load case: K requests with distinct parameters served at the same time by
